@@ -560,6 +560,65 @@ def check_two_runs(name, between, seed):
     return out
 
 
+def check_sessions(name, seed, sessions=2):
+    """Several sessions on ONE store file, each in a fresh interpreter as far as the id counter goes (it restarts at 0):
+    a session opens the existing file in write mode (which loads it) and runs the algorithm. Afterwards every individual
+    recorded in any session has its own row."""
+    from .c_support import make_problem, reset_ids, algorithm_class, std_objective
+    from artap.datastore import SqliteDataStore, DummyDataStore
+    from artap.individual import Individual
+    from ..core import shim as shim_mod
+    db = fresh_db("c10sess")
+    desc = "%d sessions of %s on one store file" % (sessions, name)
+    recorded = []           # (id, image) of every individual recorded by any session, taken when the session ends
+    out = []
+    try:
+        for sidx in range(sessions):
+            Individual.counter = 0         # a new interpreter
+            problem = make_problem(n_params=2, bounds=[[0.0, 1.0]] * 2, criteria=["minimize", "minimize"], f=std_objective(2))
+            problem.data_store = SqliteDataStore(problem, database_name=db)
+            loaded = len(problem.individuals)
+            sh = shim_mod.install()
+            sh.reset(seed + sidx, None)
+            try:
+                if name == "Sweep":
+                    from artap.algorithm_sweep import SweepAlgorithm
+                    from artap.operators import RandomGenerator
+                    gen = RandomGenerator(problem.parameters)
+                    gen.init(3)
+                    alg = SweepAlgorithm(problem, generator=gen)
+                else:
+                    alg = algorithm_class(name)(problem)
+                    alg.options['max_population_number'] = 2
+                    alg.options['max_population_size'] = 3
+                alg.options['verbose_level'] = 0
+                alg.run()
+            finally:
+                sh.ctx = None
+            for ind in problem.individuals[loaded:]:
+                recorded.append((ind.id, image(ind), sidx))
+            store = problem.data_store
+            problem.data_store = DummyDataStore()
+            store.destroy()
+    except Exception as e:
+        return [("C10:sessions:%s:exception:%s" % (name, type(e).__name__), "%s raised %r" % (desc, e))]
+    rows = dict(read_rows(db))
+    ids = [r[0] for r in recorded]
+    if len(set(ids)) != len(ids):
+        dup = sorted(set(i for i in ids if ids.count(i) > 1))
+        out.append(("C10:sessions:ids-reused-by-a-later-session", "%s: ids %r were given to individuals of two sessions (one row per id: the earlier individual's row is overwritten)" % (desc, dup[:6])))
+    for iid, img, sidx in recorded:
+        if iid not in rows:
+            out.append(("C10:sessions:row-missing", "%s: individual id %r of session %d has no row" % (desc, iid, sidx + 1)))
+            break
+        got = image_of_loaded(json.loads(rows[iid]))
+        bad = [f for f in ("vector", "costs", "costs_signed", "population_id") if got[f] != img[f]]
+        if bad:
+            out.append(("C10:sessions:row-is-not-this-individual", "%s: the row of id %r does not hold the individual session %d recorded under that id (differs in %r)" % (desc, iid, sidx + 1, bad)))
+            break
+    return out
+
+
 def _shard(shard, col: Collector):
     kind = shard[0]
     if kind == "bfs":
@@ -607,6 +666,13 @@ def _shard(shard, col: Collector):
                     col.violation(key.replace("C10:", "C10:locked:", 1) if not key.startswith("C10:locked") else key, "history", msg,
                                   {"history": hist, "variant": variant})
         col.sample({"kind": "synchronisation under a foreign lock", "variant": variant, "locked_answers": [1, 8, 60]}, 1)
+    elif kind == "sessions":
+        _, name, seed, n = shard
+        col.case()
+        col.nontrivial(("sessions", name, n))
+        col.count("algorithm_runs", n)
+        for key, msg in check_sessions(name, seed, n):
+            col.violation(key, "sessions", msg, {"name": name, "seed": seed, "sessions": n})
     elif kind == "tworuns":
         _, name, between, seed = shard
         col.case()
@@ -632,6 +698,8 @@ def replay(sub, case):
         return check_two_stores(tt(case["h1"]), tt(case["h2"]))
     if sub == "run":
         return check_run(case["name"], case["seed"])
+    if sub == "sessions":
+        return check_sessions(case["name"], case["seed"], case["sessions"])
     if sub == "tworuns":
         return check_two_runs(case["name"], case["between"], case["seed"])
     raise ValueError(sub)
@@ -649,6 +717,9 @@ def run(tier, seed):
     shards.append(("two",))
     for variant in ("float", "nts"):
         shards.append(("locked", variant))
+    for name in ("NSGAII", "EpsMOEA", "SMPSO", "Sweep"):
+        for n in (2, 3):
+            shards.append(("sessions", name, seed, n))
     for name in ("NSGAII", "EpsMOEA", "SMPSO"):
         for between in ("none", "view_old", "write_old", "view_self", "from_dict"):
             shards.append(("tworuns", name, between, seed))
